@@ -74,7 +74,7 @@ func stepJDiff(src, tgt interface{}) (J, J) {
 	return J{"k": "jdiff", "src": src, "tgt": tgt}, obs
 }
 
-var patchKeys = []string{"a", "b", "c", "a/b", "m~n", "x y", "0", "a~1b", "~01", "~10", "~", "/", "~0~1"}
+var patchKeys = []string{"a", "b", "c", "a/b", "m~n", "x y", "0", "a~1b", "~01", "~10", "~", "/", "~0~1", "", "-", "a", "b", "", "01", "1"}
 
 // randObj: a random JSON object without nulls (nested objects/arrays of primitives)
 func (g *gen) randObj(depth int) J {
